@@ -4,8 +4,20 @@ use rayon::prelude::*;
 use std::path::{Path, PathBuf};
 use std::process::Command;
 
-pub const FFI_BIN: &str = "/verif/fuzz/target/x86_64-unknown-linux-gnu/release/ffi";
-pub const HISTORY_BIN: &str = "/verif/fuzz/target-nosan/x86_64-unknown-linux-gnu/release/history";
+/// Directory of the cargo-fuzz crate.  Always /verif/fuzz for the registered checks; `VERIF_FUZZ_DIR` exists only so
+/// that a scratch copy (built against a scratch worktree) can be used in sensitivity experiments.
+pub fn fuzz_dir() -> &'static str {
+    static D: std::sync::OnceLock<String> = std::sync::OnceLock::new();
+    D.get_or_init(|| std::env::var("VERIF_FUZZ_DIR").unwrap_or_else(|_| "/verif/fuzz".to_string()))
+}
+pub fn ffi_bin() -> &'static str {
+    static D: std::sync::OnceLock<String> = std::sync::OnceLock::new();
+    D.get_or_init(|| format!("{}/target/x86_64-unknown-linux-gnu/release/ffi", fuzz_dir()))
+}
+pub fn history_bin() -> &'static str {
+    static D: std::sync::OnceLock<String> = std::sync::OnceLock::new();
+    D.get_or_init(|| format!("{}/target-nosan/x86_64-unknown-linux-gnu/release/history", fuzz_dir()))
+}
 
 #[derive(Debug, Default)]
 pub struct Outcome {
@@ -79,6 +91,15 @@ fn interesting(out: &str) -> String {
 
 /// Execute every file of each directory exactly once (`-runs=0`), one process per directory.
 pub fn run_dirs_once(bin: &str, dirs: &[(PathBuf, bool)], artifact_prefix: &str, xdg_root: &Path) -> Outcome {
+    run_dirs_once_with(bin, dirs, artifact_prefix, xdg_root, "")
+}
+
+/// `extra_asan`: further ASAN_OPTIONS, e.g. `quarantine_size_mb=0:thread_local_quarantine_size_kb=0` - with the
+/// quarantine switched off freed blocks are handed out again at once, as a production allocator does; ownership
+/// mistakes that depend on an address being re-used only show then (at the price of weaker use-after-free detection,
+/// which is why this is a second pass and not the only one).
+pub fn run_dirs_once_with(bin: &str, dirs: &[(PathBuf, bool)], artifact_prefix: &str, xdg_root: &Path, extra_asan: &str) -> Outcome {
+    let asan = if extra_asan.is_empty() { "detect_leaks=1:abort_on_error=0:symbolize=1".to_string() } else { format!("detect_leaks=1:abort_on_error=0:symbolize=1:{extra_asan}") };
     let results: Vec<(bool, u64, String)> = dirs
         .par_iter()
         .enumerate()
@@ -94,7 +115,7 @@ pub fn run_dirs_once(bin: &str, dirs: &[(PathBuf, bool)], artifact_prefix: &str,
                 .arg(format!("-artifact_prefix={artifact_prefix}"))
                 .env("VERIF_FUZZ_XDG", &xdg)
                 .env("VERIF_FUZZ_DATA", if *allow_data { "allow" } else { "never" })
-                .env("ASAN_OPTIONS", "detect_leaks=1:abort_on_error=0:symbolize=1")
+                .env("ASAN_OPTIONS", &asan)
                 .env("RUST_BACKTRACE", "0")
                 .output();
             let _ = std::fs::remove_dir_all(&xdg);
